@@ -100,6 +100,28 @@ fn vector(profile: &str) -> BoxedStrategy<Vector> {
                 }
             })
             .boxed(),
+        // dyadic vectors whose sum is a few draw-resolution units below 1 (exact counts expected)
+        "near_one" => (targets(), select(vec![23u32, 22, 20, 16]), 1u64..=16, proptest::collection::vec(any::<u32>(), 6))
+            .prop_map(|(ts, g, j, raw)| {
+                let unit = 1u64 << g;
+                let total = unit - j;
+                let k = ts.len();
+                let mut parts = vec![1u64; k];
+                let mut left = total - k as u64;
+                for i in 0..k {
+                    if i + 1 == k {
+                        parts[i] += left;
+                    } else {
+                        let take = raw[i] as u64 % (left + 1);
+                        parts[i] += take;
+                        left -= take;
+                    }
+                }
+                Vector {
+                    trans: ts.into_iter().zip(parts).map(|(t, p)| (t, Fs(p as f32 / unit as f32))).collect(),
+                }
+            })
+            .boxed(),
         // values at the resolution limits of f32 and of the draw
         "edges" => (targets(), proptest::collection::vec(select(vec![
             f32::from_bits(1),
@@ -201,12 +223,12 @@ fn probe_machines(v: &Vector) -> Vec<MachineSpec> {
 impl Prop for C06 {
     type Case = Vector;
     const ID: &'static str = "C06";
-    const RULE: &'static str = "case = one validated probability vector of 1..=6 distinct targets (regular states, END, SIGNAL): 'dyadic' (multiples of 2^-g, g in {1..23}, sums up to exactly 1), 'edges' (f32 subnormal, 2^-24, 2^-23 +- ulp, 1-2^-24, 1.0, ...), 'random' (arbitrary weights, with and without residual). For each vector State::sample_state is evaluated on ALL 2^23 values the uniform draw can take (word k<<9, k=0..2^23) and the per-target counts are compared with the declared probabilities (exactly for dyadic vectors, within 1+i draws otherwise); a stride of words re-checks that the low 9 bits are ignored; a framework-level pass ties the sampled target to the dispatched state / END / SIGNAL at every threshold-adjacent word. Non-trivial: vector with >=2 targets or residual probability > 0. Distinct = hash of the vector.";
+    const RULE: &'static str = "case = one validated probability vector of 1..=6 distinct targets (regular states, END, SIGNAL): 'dyadic' (multiples of 2^-g, g in {1..23}, sums up to exactly 1), 'edges' (f32 subnormal, 2^-24, 2^-23 +- ulp, 1-2^-24, 1.0, ...), 'random' (arbitrary weights, with and without residual). For each vector State::sample_state is evaluated on ALL 2^23 values the uniform draw can take (word k<<9, k=0..2^23) and the per-target counts are compared with the declared probabilities (exactly for dyadic vectors, within 1+ceil(i/2) draws otherwise); a stride of words re-checks that the low 9 bits are ignored; a framework-level pass ties the sampled target to the dispatched state / END / SIGNAL at every threshold-adjacent word. Non-trivial: vector with >=2 targets or residual probability > 0. Distinct = hash of the vector.";
 
     fn profiles(tier: Tier) -> Vec<Profile> {
         match tier {
-            Tier::Quick => vec![prof("dyadic", 160), prof("edges", 120), prof("random", 160)],
-            Tier::Thorough => vec![prof("dyadic", 8_000), prof("edges", 4_000), prof("random", 8_000)],
+            Tier::Quick => vec![prof("dyadic", 500), prof("near_one", 400), prof("edges", 400), prof("random", 500)],
+            Tier::Thorough => vec![prof("dyadic", 8_000), prof("near_one", 6_000), prof("edges", 6_000), prof("random", 8_000)],
         }
     }
 
@@ -278,7 +300,8 @@ impl Prop for C06 {
         }
         for i in 0..k {
             let diff = (counts[i] as f64 - scaled[i]).abs();
-            let tol = if dyadic { 0.0 } else { 1.0 + i as f64 };
+            // one draw of resolution plus the f32 summation error of the preceding addends (<= 1/4 draw each)
+            let tol = if dyadic { 0.0 } else { 1.0 + (i as f64 / 2.0).ceil() };
             if diff > tol {
                 return fail(
                     if dyadic { "share-differs-from-probability (exact)" } else { "share-differs-from-probability" },
@@ -290,7 +313,7 @@ impl Prop for C06 {
             }
         }
         let none_expected = N as f64 - total;
-        let none_tol = if dyadic { 0.0 } else { 1.0 + k as f64 };
+        let none_tol = if dyadic { 0.0 } else { 1.0 + (k as f64 / 2.0).ceil() };
         if (none as f64 - none_expected).abs() > none_tol {
             return fail(
                 "no-transition-share-differs-from-residual",
@@ -394,7 +417,7 @@ impl Prop for C06 {
     fn assumptions() -> Vec<&'static str> {
         vec![
             "the uniform draw of rand 0.8.8 maps a 32-bit word w to (w >> 9) * 2^-23 (self-tested at start-up); its 2^23 values are equally likely under a fair source",
-            "for non-dyadic vectors the share may differ from p_i * 2^23 by one draw of resolution plus f32 summation error of the preceding addends (1 + i)",
+            "for non-dyadic vectors the share may differ from p_i * 2^23 by one draw of resolution plus f32 summation error of the preceding addends (1 + ceil(i/2))",
             "the vectors themselves are sampled; only the draw is enumerated exhaustively",
         ]
     }
